@@ -1,6 +1,8 @@
 CONSTANTS
   MaxCfg = 4
   MaxTouch = 6
+  DynKeys = {"extra", "dyn_b", "wq7"}
+  MaxDyn = 3
 INIT TraceInit
 NEXT TraceNext
 ACTION_CONSTRAINT Report
